@@ -637,6 +637,7 @@ func renderPlain(v interface{}) string {
 func init() { c16.Run = runC16 }
 
 func runC16(w *core.W) {
+	runC16Shadow(w)
 	r := w.RNG("paths")
 	run := func(c *PathCase, i int) {
 		c16Path(w, c)
@@ -761,6 +762,56 @@ func runC16(w *core.W) {
 				if w.Mine(fi) && (strings.HasPrefix(name, "$") || !strings.Contains(f, "a =")) {
 					c16Follow(w, &FollowCase{Name: name, First: f, Change: ch})
 				}
+			}
+		}
+	}
+}
+
+// ShadowCase: a host function stored in the data under the name of a builtin. A bare name denotes the builtin if there
+// is one: the call gives what it gives without that entry, and `this.<name>` still reads the entry.
+type ShadowCase struct {
+	Name string `json:"name"`
+	Call string `json:"call"` // the call, with %b for the name
+}
+
+var shadowCalls = []string{"%b(n0)", "%b(s0, s1)", "%b(t0)", "%b(n0, n1)", "%b(s0, n0, n1)", "%b(arr, s0)", "%b()", "%b(s0)", "%b(3, 7)", "%b('ab')", "[%b(n1), %b(n1)]", "%b(n0) ?? 'x'", "typeof %b", "%b == null", "(%b)(n0)", "$f = %b, typeof $f"}
+
+var c16Shadow = core.Mon(c16, "builtin-not-shadowed", func(w *core.W, c *ShadowCase) {
+	src := strings.ReplaceAll(c.Call, "%b", c.Name)
+	base := func() map[string]interface{} {
+		return map[string]interface{}{"n0": 2.5, "n1": -3, "s0": "abcab", "s1": "b", "t0": time.Date(2024, 2, 29, 13, 4, 5, 0, time.UTC), "arr": []interface{}{"p", "q"}}
+	}
+	w.Count("shadow_cases")
+	w.Nontrivial("shadow:" + src)
+	v0, e0, p0, pv0 := resolveInOnce(base(), src)
+	called := 0
+	with := base()
+	with[c.Name] = func(xs ...interface{}) (interface{}, error) { called++; return "host:" + c.Name, nil }
+	v1, e1, p1, pv1 := resolveInOnce(with, src)
+	w.Eval(2)
+	o0, o1 := outcome(v0, e0, p0, pv0), outcome(v1, e1, p1, pv1)
+	if c.Name == "now" || c.Name == "toDay" {
+		o0, o1 = o0[:5], o1[:5] // (the clock moves on: same kind of outcome)
+	}
+	if called != 0 || o0 != o1 {
+		w.Violation("builtin-not-shadowed", "C16/builtin-shadowed-by-host-function", c, clipS(o0, 200), clipS(fmt.Sprintf("%s (the data entry was called %d times)", o1, called), 200),
+			fmt.Sprintf("%s with a host function stored under the name %s in the data", src, c.Name))
+		return
+	}
+	// the entry itself is still there for `this.<name>`
+	v2, e2, p2, _ := resolveInOnce(with, "[this."+c.Name+"]")
+	arr, _ := v2.([]interface{})
+	if p2 || e2 != nil || len(arr) != 1 || arr[0] == nil || reflect.TypeOf(arr[0]).Kind() != reflect.Func || reflect.ValueOf(arr[0]).Pointer() != reflect.ValueOf(with[c.Name]).Pointer() {
+		w.Violation("builtin-not-shadowed", "C16/this-member-not-the-data-entry", c, "the host function stored in the data", fmt.Sprint(show(v2), " ", e2), "[this."+c.Name+"]")
+	}
+})
+
+func runC16Shadow(w *core.W) {
+	i := 0
+	for _, b := range gen.Builtins {
+		for _, call := range shadowCalls {
+			if i++; w.Mine(i) {
+				c16Shadow(w, &ShadowCase{Name: b, Call: call})
 			}
 		}
 	}
